@@ -105,7 +105,7 @@ def main():
         ],
         "checks": checks,
         "not_applicable": na,
-        "notes": "Repairs of genuine defects are 'fix:' commits in /repo, recorded in /verif/known_findings.json (eleven fixed; one open finding, F12, for which ./check C10 prints KNOWN-FINDING lines and exits 0). No hooks in /repo.",
+        "notes": "Repairs of genuine defects are 'fix:' commits in /repo, recorded in /verif/known_findings.json (eleven fixed; two open findings, F12 and F13, for which ./check C10 resp. ./check C07 print KNOWN-FINDING lines and exit 0). No hooks in /repo.",
     }
     with open(os.path.join(ROOT, "MANIFEST.json"), "w") as f:
         json.dump(m, f, indent=1)
